@@ -141,7 +141,8 @@ def lean_audit(prop: str) -> Tuple[List[Dict[str, Any]], str]:
     finally:
         tmp.unlink(missing_ok=True)
     thms = []
-    for m in re.finditer(r"AUDIT (\S+) AXIOMS \[(.*?)\] HASH (\d+)", out):
+    # the message is pretty-printed at width 120: long names wrap, so any whitespace (incl. newlines) may separate the fields
+    for m in re.finditer(r"AUDIT\s+(\S+)\s+AXIOMS\s+\[(.*?)\]\s+HASH\s+(\d+)", out, re.S):
         axs = [a.strip() for a in m.group(2).split(",") if a.strip()]
         thms.append({"name": m.group(1), "axioms": axs, "hash": m.group(3)})
     return thms, (out + err if rc != 0 else "")
